@@ -49,6 +49,12 @@ def job(T, Fc, asc, kind, smear, geom, tier, dsign):
 
     def run():
         fr = make_frame(T, Fc, asc, Sym(RV(df)), Sym(RV(dt)), Sym(RV(fch1)))
+        # the helper's frame has been part of a cadence before: its time axis was shifted, read (also the extended
+        # axis, as a smeared injection does) and put back -- none of which may leave a trace
+        saved_ts = fr.ts
+        fr.ts = fr.ts + Sym(RV(1000 * dt))
+        _ = (fr.ts_ext, fr.t_stop, fr.obs_length)
+        fr.ts = saved_ts
         h = fr.add_constant_signal(f0, d, lvl, w, f_profile_type=kind, doppler_smearing=smear)
         fr2 = make_frame(T, Fc, asc, Sym(RV(df)), Sym(RV(dt)), Sym(RV(fch1)))
         n = core.smax(1, core.ceil(abs(d) / fr2.unit_drift_rate))
@@ -145,6 +151,10 @@ def replay_const(p):
     T, Fc = p['T'], p['Fc']
     mk = lambda: stg.Frame(fchans=Fc, tchans=T, df=p['df'], dt=p['dt'], fch1=p['fch1'], ascending=p['asc'], seed=0)
     fr, fr2 = mk(), mk()
+    saved_ts = fr.ts.copy()             # earlier use inside a cadence: time axis shifted, read, put back
+    fr.ts = fr.ts + 1000 * p['dt']
+    _ = (fr.ts_ext, fr.t_stop, fr.obs_length)
+    fr.ts = saved_ts
     try:
         h = fr.add_constant_signal(p['f_start'], p['drift'], p['level'], p['width'], f_profile_type=p['kind'], doppler_smearing=p['smear'])
     except Exception as e:
